@@ -255,6 +255,99 @@ namespace plan
       m.stmts.push_back(s);
       ++order;
     }
+    else if (n == "pin")
+    { // the start (or `at`) T of a top-level goal is tight only under a search decision:
+      //   T >= k;   { T <= k; [goal c = new Q();] } or { T >= k + d; }
+      // (what a client's failure() of c, or any backjump below that decision, may undo after the atom has started)
+      // the pinned atom is a goal of its own, on a temporal global predicate, with no argument given
+      std::vector<int> tp;
+      for (size_t i = 0; i < m.preds.size(); ++i)
+        if (m.preds[i].cls < 0 && (p_interval(m.preds[i]) || p_impulse(m.preds[i])))
+          tp.push_back(static_cast<int>(i));
+      if (tp.empty())
+        return;
+      auto fo = std::make_shared<BodyItem>();
+      fo->k = BodyItem::SUBGOAL;
+      fo->pred = tp[modn(op.arg(0), tp.size())];
+      fo->is_fact = false;
+      fo->local = "g" + std::to_string(m.n_formulas++);
+      {
+        Stmt fs;
+        fs.k = Stmt::FORMULA;
+        fs.item = fo;
+        fs.text = "goal " + fo->local + " = new " + m.preds[fo->pred].name + "();";
+        m.stmts.push_back(fs);
+        ++order;
+        for (auto &a : m.preds[fo->pred].rparams)
+          top.nums.push_back({fo->local, a});
+      }
+      const BodyItem *f = fo.get();
+      Path T = {f->local, p_interval(m.preds[f->pred]) ? "start" : "at"};
+      mpq_class k(modn(op.arg(1), 5)), d(modn(op.arg(2), 3) + 1);
+      auto rel = [&](int r, const mpq_class &c)
+      {
+        auto b = std::make_shared<B>();
+        b->k = B::REL;
+        b->rel = r;
+        b->l.t.push_back({mpq_class(1), T});
+        b->r.k = c;
+        return b;
+      };
+      assert_stmt(rel(GEQ, k));
+      auto dj = std::make_shared<BodyItem>();
+      dj->k = BodyItem::DISJ;
+      std::vector<std::shared_ptr<BodyItem>> b1, b2;
+      auto i1 = std::make_shared<BodyItem>();
+      i1->k = BodyItem::ASSERT;
+      i1->b = rel(LEQ, k);
+      b1.push_back(i1);
+      std::string t1 = " " + btext(i1->b) + ";";
+      std::vector<int> gp, tgp;
+      for (size_t i = 0; i < m.preds.size(); ++i)
+        if (m.preds[i].cls < 0)
+        {
+          gp.push_back(static_cast<int>(i));
+          if (p_interval(m.preds[i]) || p_impulse(m.preds[i]))
+            tgp.push_back(static_cast<int>(i)); // an atom the executor dispatches, hence one a client can report as failed
+        }
+      if (!tgp.empty())
+        gp = tgp;
+      if (!gp.empty() && (op.arg(3) & 1))
+      {
+        int gi = gp[modn(op.arg(3) >> 1, gp.size())];
+        std::string nm = "g" + std::to_string(m.n_formulas++);
+        t1 += " goal " + nm + " = new " + m.preds[gi].name + "();";
+        auto g = std::make_shared<BodyItem>();
+        g->k = BodyItem::SUBGOAL;
+        g->pred = gi;
+        g->local = nm;
+        b1.push_back(g);
+        if (p_interval(m.preds[gi]) || p_impulse(m.preds[gi]))
+        { // it is still pending when the pinned atom starts
+          auto later = std::make_shared<B>();
+          later->k = B::REL;
+          later->rel = GEQ;
+          later->l.t.push_back({mpq_class(1), Path{nm, p_interval(m.preds[gi]) ? "start" : "at"}});
+          later->r.k = k + 1 + modn(op.arg(3) >> 3, 2);
+          auto il = std::make_shared<BodyItem>();
+          il->k = BodyItem::ASSERT;
+          il->b = later;
+          b1.push_back(il);
+          t1 += " " + btext(later) + ";";
+        }
+      }
+      auto i2 = std::make_shared<BodyItem>();
+      i2->k = BodyItem::ASSERT;
+      i2->b = rel(GEQ, k + d);
+      b2.push_back(i2);
+      dj->branches = {b1, b2};
+      Stmt s;
+      s.k = Stmt::DISJ;
+      s.item = dj;
+      s.text = "{" + t1 + " } or { " + btext(i2->b) + "; }";
+      m.stmts.push_back(s);
+      ++order;
+    }
     else if (n == "horizon")
     { // horizon <= k keeps timelines tight enough for conflicts
       auto b = std::make_shared<B>();
